@@ -12,8 +12,9 @@ const char *READER_NAME[] = {"Int32", "UInt32", "Int64", "UInt64", "Float", "Dou
 const char *CLS_NAME[] = {"DEC", "DECSUF", "NONDEC", "MNEM", "STR", "BLK", "EXPR"};
 
 // tags are the application's own numbers: small, negative ("-1 = automatic" is a firmware habit), zero, large
+// names as the data sheet spells them: some start with a lower-case letter (dBm, mW); matching ignores case
 const scpi_choice_def_t trig_choice[] = {{"BUS", 5}, {"IMMediate", 6}, {"EXTernal", 7}, {"TIMer", -1}, {"MANual", 0}, {"LINE", 2147483647}, {"HOLD", -2147483647 - 1},
-                                         SCPI_CHOICE_LIST_END};
+                                         {"dBm", 9}, {"mW", 10}, SCPI_CHOICE_LIST_END};
 
 struct MnemInfo {
     const char *lit;
@@ -25,6 +26,7 @@ const MnemInfo MNEMS[] = {
     {"NAN", false, false, true},  {"INF", false, false, true},       {"INFinity", false, false, true}, {"NINF", false, false, true}, {"AUTO", false, false, true},
     {"BUS", false, true, false},  {"IMM", false, true, false},       {"IMMediate", false, true, false}, {"ext", false, true, false},  {"EXTERNAL", false, true, false},
     {"TIM", false, true, false},  {"timer", false, true, false},     {"MAN", false, true, false},   {"LINE", false, true, false}, {"hold", false, true, false},
+    {"DBM", false, true, false},  {"dbm", false, true, false},       {"dBm", false, true, false},   {"MW", false, true, false},   {"mw", false, true, false},
     {"FOO", false, false, false}, {"abc_1", false, false, false},    {"IMMED", false, false, false}, {"O", false, false, false},   {"MINI", false, false, false},
 };
 const MnemInfo *find_mnem(const std::string &s) {
@@ -410,7 +412,8 @@ struct PRun {
                     cmp = true;
                     got = std::to_string(ch);
                     char c0 = (char) toupper(it->lit[0]);
-                    exp = c0 == 'B' ? "5" : c0 == 'I' ? "6" : c0 == 'E' ? "7" : c0 == 'T' ? "-1" : c0 == 'M' ? "0" : c0 == 'L' ? "2147483647" : "-2147483648";
+                    char c1 = it->lit.size() > 1 ? (char) toupper(it->lit[1]) : 0;
+                    exp = c0 == 'B' ? "5" : c0 == 'I' ? "6" : c0 == 'E' ? "7" : c0 == 'T' ? "-1" : (c0 == 'M' && c1 == 'W') ? "10" : c0 == 'M' ? "0" : c0 == 'L' ? "2147483647" : c0 == 'D' ? "9" : "-2147483648";
                     break;
                 }
                 case R_COPYTEXT: {
